@@ -56,7 +56,7 @@ def _pipeline_info(pipe, data, context, former_data=None):
                     new_data = [_[1] for _ in data.items()]
                 else:
                     mx = max(vs)
-                    while len(new_data) < mx:
+                    while len(new_data) <= mx:
                         if len(data) > len(new_data):
                             new_data.append(data[len(new_data)])
                         else:
